@@ -33,6 +33,37 @@ PROPS = {
         },
         "assumptions": COMMON_ASSUME + STR_STUBS,
     },
+    "C13": {
+        "groups": [
+            {"name": "int", "tags": "verif", "run": "^VH_C13_(basic_step|compose)$", "flags": {"solver": "cvc5-int", "solver-timeout-ms": 120000}},
+            {"name": "bv", "tags": "verif", "run": "^VH_C13_(basic_edge|basic_atomic|burst_step|burst_history|level)$",
+             "quick": {"params": "history=3"}, "thorough": {"params": "history=5"}},
+        ],
+        "level": "model_checking",
+        "bounds": {
+            "basic": "one Sample step from an arbitrary 32-bit counter c < 2^32-1 and arbitrary N >= 2 (no bound; symbolic-by-symbolic 32-bit division decided by cvc5 --solve-bv-as-int=sum); N=0, N=1 and the first event from a fresh sampler separately",
+            "burst": "one step from an arbitrary (counter, resetAt, now, Burst, Period) state; histories of 3 (thorough 5) steps from the zero value with arbitrary, possibly non-monotonic 64-bit clock readings",
+            "level": "all 256 levels x all 32 nil/non-nil configurations of the five samplers",
+            "outside": "more than 2^32-1 events per BasicSampler (counter wrap); concurrent BurstSampler; goroutine interleavings of BasicSampler are covered by the single-atomic-operation argument (measured), not by schedule exploration",
+        },
+        "assumptions": COMMON_ASSUME + ["TimestampFunc is a harness stub handing out symbolic UnixNano readings", "cvc5 1.0.x integer encoding of bit-vector division (basic_step, compose)"],
+    },
+    "C14": {
+        "groups": [{"name": "json", "tags": "verif", "run": "^VH_C14_",
+                    "quick": {"params": "dests=2,events=2"}, "thorough": {"params": "dests=3,events=3", "harness-timeout": 3000, "max-paths": 5000000}}],
+        "level": "model_checking",
+        "bounds": {"quick": "<= 2 destinations x <= 2 events", "thorough": "<= 3 destinations x <= 3 events",
+                   "faults": "every destination call returns a symbolic (n, err): n any int in [0, len(p)], err nil or the destination's error; destinations are LevelWriters, plain io.Writers (LevelWriterAdapter) or FilteredLevelWriters with a symbolic level"},
+        "assumptions": COMMON_ASSUME + STR_STUBS[:1],
+    },
+    "C15": {
+        "groups": [{"name": "json", "tags": "verif", "run": "^VH_C15_",
+                    "quick": {"params": "ops=3"}, "thorough": {"params": "ops=5", "harness-timeout": 3000}}],
+        "level": "model_checking",
+        "bounds": {"quick": "histories of 3 operations (WriteLevel / Trigger / Close)", "thorough": "histories of 5 operations",
+                   "values": "ConditionalLevel, TriggerLevel and every line level symbolic over int8 (level 10 excluded as the property states); line = one symbolic non-newline byte + newline (two_lines: 2+1 bytes); bytes.Buffer executed from its real SSA; destination errors and concurrency outside"},
+        "assumptions": COMMON_ASSUME + ["sync.Pool modelled as a LIFO free list", "bytes.IndexByte modelled as a left-to-right scan"],
+    },
     "C04": {
         "groups": [{"name": "json", "tags": "verif", "run": "^VH_C04_", "flags": {"gen": True}}],
         "level": "model_checking",
@@ -52,6 +83,21 @@ NOT_APPLICABLE = [
 ]
 
 MANIFEST_TEXT = {
+    "C13": {
+        "level_text": "Bounded model checking: one-step lemmas of the real Sample methods from arbitrary sampler states (which compose to histories of any length) plus short histories with fully symbolic clocks against a reference model written in the harness.",
+        "design_ref": "DESIGN.md §3 C13",
+        "level_note": "BasicSampler's symbolic division is decided by cvc5 in integer mode (z3 returns unknown); stated preconditions: fewer than 2^32-1 events per sampler, now+Period does not overflow. RandomSampler is not in the property.",
+    },
+    "C14": {
+        "level_text": "Bounded model checking: the fault sequence is a vector of solver variables (each destination call returns a symbolic count and error), so every combination of ok / error / short write within the bound is decided at once on the real MultiLevelWriter / FilteredLevelWriter / Event.msg code.",
+        "design_ref": "DESIGN.md §3 C14",
+        "level_note": "Bound: <= 2x2 (quick) / 3x3 (thorough) destinations x events.",
+    },
+    "C15": {
+        "level_text": "Bounded model checking of the real TriggerLevelWriter (including bytes.Buffer) over all histories of up to 3 (thorough 5) operations with symbolic levels and line contents, compared after every operation with a reference model.",
+        "design_ref": "DESIGN.md §3 C15",
+        "level_note": "Lines are 1-2 symbolic bytes; concurrency (the mutex) and destination errors are outside the bound.",
+    },
     "C01": {
         "level_text": "Bounded model checking of the real code: every exported field method of Event/Context/Array (enumerated from the method sets of the working tree) is executed symbolically for one step from an arbitrary buffer satisfying the representation invariant, and the appended bytes must parse as well-formed members; by induction this covers call sequences and nesting of any length, within the stated bounds on string lengths and slice sizes.",
         "design_ref": "DESIGN.md §3 C01",
